@@ -194,7 +194,7 @@ type expect struct {
 }
 
 func (c *Case) expectation() expect {
-	if c.Trunc < 0 || c.Trunc >= len(c.Body) && !c.TruncErr {
+	if c.Trunc < 0 || c.Trunc >= len(c.Body) && !c.TruncErr && c.Abort != "close" {
 		return expect{n: len(c.Msgs), class: "end-of-stream", clean: true, exact: true}
 	}
 	if c.Abort == "cancel" {
@@ -236,7 +236,7 @@ func (c *Case) expectation() expect {
 		switch {
 		case t <= s.Start:
 			// boundary
-		case c.Codec == "json" && t <= s.Pre:
+		case c.T == "http" && c.Codec == "json" && t <= s.Pre:
 			// only separator whitespace follows the last complete object
 			ex.class = "in-separator"
 		case t < s.Pre:
@@ -263,6 +263,11 @@ func (c *Case) expectation() expect {
 		if ex.class == "at-boundary" || ex.class == "in-separator" {
 			ex.class = "abort-" + ex.class
 		}
+	}
+	if c.Abort == "rst" {
+		// RST_STREAM lets the server discard request data it has not
+		// handed to the handler yet
+		ex.exact = false
 	}
 	if !ex.mustErr {
 		if c.T == "ws" && c.Abort == "close" {
@@ -603,7 +608,9 @@ func (e *env) judge(c *Case, s snapshot, co *cobs, clientSaw bool) (vs []viol, o
 			break
 		}
 		if ex.clean {
-			want = want[:ex.n]
+			if c.Shape != "bidinb" {
+				want = want[:ex.n]
+			}
 			got := s.recv
 			if c.StopAfter > 0 && c.StopAfter <= len(want) {
 				// the handler ended the call itself: no terminal event
@@ -701,8 +708,9 @@ func (e *env) judge(c *Case, s snapshot, co *cobs, clientSaw bool) (vs []viol, o
 		switch {
 		case !co.hasStatus:
 			add("lost-status", "close-frame", fmt.Sprintf("client: connection ended without a close frame after %d messages (handler returned %v)", len(co.msgs), s.ret))
-		case s.ret == nil && co.code != 1000:
-			add("wrong-status", "close-frame", fmt.Sprintf("client: close code %d after the handler returned nil, want 1000", co.code))
+		case s.ret == nil && co.code != 1000 && co.code != 1005:
+			// a close frame without a code (1005) also reads as "no error"
+			add("wrong-status", "close-frame", fmt.Sprintf("client: close code %d after the handler returned nil, want 1000 (or none)", co.code))
 		case s.ret != nil && (co.code == 1000 || co.code == 1005):
 			add("wrong-status", "close-frame", fmt.Sprintf("client: close code %d although the handler returned %v", co.code, s.ret))
 		case s.ret != nil && c.Final != 0 && int(status.Code(s.ret)) == c.Final && co.smsg != c.FinalMsg:
